@@ -301,12 +301,35 @@ def stratum(t):
     return t["k"]
 
 
-def stratified(rng, terms, per_kind, special):
+def _wclass(op):
+    return op[0] if op[0] != "weight" else ("w0" if op[1] == 0 else "w")
+
+
+def wt_stratum(t):
+    """Sampling stratum of a term of the "wt" family: root kind x how each item shares the space x the order of unequal weights."""
+    items = t["o"][1] if t["k"] == "Pile" else t["o"][3]
+    pos = [op[1] for op in items if op[0] == "weight" and op[1] > 0]
+    order = "" if len(pos) < 2 else ("heavier_first" if pos[0] > pos[-1] else "lighter_first" if pos[0] < pos[-1] else "equal")
+    return (t["k"], tuple(_wclass(op) for op in items), order)
+
+
+def _heavier_first(items):
+    pos = [op[1] for op in items if op[0] == "weight" and op[1] > 0]
+    return any(a > b for i, a in enumerate(pos) for b in pos[i + 1:])
+
+
+def shard_stratum(t):
+    """Sampling stratum of a term of the "shards" family: the kinds down the deepest path (stacker / clipper / row / cell)."""
+    deep = max(t["c"], key=wtree.depth) if t["c"] else None
+    return (t["k"], len(t["c"])) + (shard_stratum(deep)[:1] + (deep["c"][0]["k"] if deep["c"] else "",) if deep is not None and deep["c"] else ())
+
+
+def stratified(rng, terms, per_kind, special, key=stratum):
     by = {}
     for t in terms:
-        by.setdefault(stratum(t), []).append(t)
+        by.setdefault(key(t), []).append(t)
     out = []
-    for k in sorted(by):
+    for k in sorted(by, key=str):
         n = special.get(k, per_kind)
         out += rng.sample(by[k], min(n, len(by[k])))
     return out
@@ -320,8 +343,15 @@ def observe_all(jobs, procs, fn=observe_term):
 
 
 def run(chk):
+    import time
+
     quick = chk.tier == "quick"
     rng = chk.rng
+    t0, phases = time.time(), {}
+
+    def phase(name):
+        phases[name] = round(time.time() - t0 - sum(phases.values()), 1)
+        chk.cov["phase_wall_s"] = phases
     bad = wtree.alphabet_selfcheck()
     if bad:
         raise tlc.MachineryError(f"width table drifted from wcwidth for {bad}")
@@ -334,18 +364,34 @@ def run(chk):
         return tlc.mc("WidgetTree", GEN_CFG.format(sim="FALSE", profile="tiny", leaf="tiny", d=1, kids=2, sib=0, nodes=8, kinds="all")
                       .replace("INVARIANT TypeOK\nINVARIANT SizingLaws\n", "INVARIANT NoOverClaim\n"), workers=2, timeout=900)
 
-    with cf.ThreadPoolExecutor(3) as ex:
+    with cf.ThreadPoolExecutor(5) as ex:
+        f_sims = ex.submit(simulate_terms, chk, 400, chk.seed, 9, 4, profile="full", leaf="full", d=3, kids=3, sib=2, nodes=9) if quick else None
+        f_shards = ex.submit(enumerate_terms, chk, "GEN_shards_depth3", workers=3, profile="min", leaf="shards", d=3, kids=2, sib=0, nodes=8, kinds="shards")
         f_leaves = ex.submit(enumerate_terms, chk, "GEN_leaves_full", workers=2, profile="full", leaf="full", d=0, kids=0, sib=0, nodes=1)
         f_d1 = ex.submit(enumerate_terms, chk, "GEN_depth1_tiny", workers=2, profile="tiny", leaf="tiny", d=1, kids=2, sib=0, nodes=8)
         f_scroll = ex.submit(enumerate_terms, chk, "GEN_scroll_depth2", workers=2, profile="rep", leaf="tiny", d=2, kids=1, sib=0, nodes=4, kinds="scroll")
+        f_wt = ex.submit(enumerate_terms, chk, "GEN_weights_depth1", workers=2, profile="wt", leaf="wt", d=1, kids=2, sib=0, nodes=8, kinds="wt")
         f_over = ex.submit(overclaim)
         leaves, d1, over = f_leaves.result(), f_d1.result() + f_scroll.result(), f_over.result()
+        wt_all = [t for t in f_wt.result() if t["c"]]
+        if f_sims is not None:
+            f_sims.result()
+        shards_all = [t for t in f_shards.result() if wtree.depth(t) >= 2 and t["k"] != "Columns"]        # clips and stacks (rows and cells alone are in the other families)
     deep = []
     if quick:
         leaves_run = stratified(rng, leaves, 14, {"Text": 100, "Text.multiline": 40, "Edit": 70})
-        sims = simulate_terms(chk, 400, chk.seed, 9, 4, profile="full", leaf="full", d=3, kids=3, sib=2, nodes=9)
+        sims = f_sims.result()
+        wt_run = stratified(rng, wt_all, 7, {k: 14 for k in {wt_stratum(t) for t in wt_all} if k[2]}, key=wt_stratum)
+        shards_run = stratified(rng, shards_all, 8, {}, key=shard_stratum)
+        shard_sims = []
     else:
         scale = float(os.environ.get("VERIF_SCALE", "1"))
+        wt3 = [t for t in enumerate_terms(chk, "GEN_weights_depth1_three_items", profile="wt", leaf="wt", d=1, kids=3, sib=0, nodes=8, kinds="wt") if len(t["c"]) == 3]
+        wt_run = wt_all + rng.sample(wt3, min(len(wt3), int(1500 * scale)))
+        shards_run = shards_all if scale >= 1 else stratified(rng, shards_all, 30, {}, key=shard_stratum)
+        # deeper members of the family (piles of cells inside the rows, adapters around the clippers, more cell kinds), drawn by TLC
+        shard_sims = simulate_terms(chk, int(3000 * scale), chk.seed + 17, 14, 8, min_depth=3, profile="min", leaf="shards", d=5, kids=3, sib=2, nodes=12, kinds="shards")
+        shard_sims = [t for t in shard_sims if wtree.depth(t) >= 3]
         leaves_run = leaves if scale >= 1 else stratified(rng, leaves, 30, {"Text": 150, "Text.multiline": 60, "Edit": 100})
         deep = enumerate_terms(chk, "GEN_depth1_rep", profile="rep", leaf="rep", d=1, kids=2, sib=0, nodes=8)
         d2 = enumerate_terms(chk, "GEN_depth2_tiny", profile="tiny", leaf="tiny", d=2, kids=2, sib=0, nodes=8)
@@ -354,6 +400,7 @@ def run(chk):
         deep = rng.sample(deep, min(len(deep), int(20000 * scale)))
         deep += rng.sample(d2, min(len(d2), int(7000 * scale)))
         sims = simulate_terms(chk, int(6000 * scale), chk.seed, 10, 8, profile="full", leaf="full", d=4, kids=3, sib=3, nodes=12)
+    phase("generate(TLC)")
     # the documented sizing rules over-claim: TLC's counterexample to NoOverClaim is rendered by the real code below
     witness = []
     r = over
@@ -363,19 +410,36 @@ def run(chk):
         witness = [strip(x) for x in st if set(x["s"]) - set(x["u"])]
     chk.cov["overclaim_witness"] = [wtree.show(t) for t in witness]
     terms = witness + leaves_run + d1 + deep + sims
-    chk.note(f"terms: leaves {len(leaves_run)}/{len(leaves)}, depth1 {len(d1)}, exhaustive deeper {len(deep)}, simulated {len(sims)}")
+    shards_run = shards_run + shard_sims
+    chk.note(f"terms: leaves {len(leaves_run)}/{len(leaves)}, depth1 {len(d1)}, exhaustive deeper {len(deep)}, simulated {len(sims)}, "
+             f"weights family {len(wt_run)}/{len(wt_all)}, shards family {len(shards_run)}/{len(shards_all)}")
+    # the sharing of columns is a matter of narrow widths (every width up to 6), the cutting of stacked canvases one of few rows (every height up to 5)
+    wt_grid = ([1, 2, 3, 4, 5, 6, 8], [1, 3] if quick else [1, 2, 3, 5])
+    shard_grid = ([3, 8] if quick else [1, 3, 4, 8], [1, 2, 3, 4, 5])
 
     jobs = []
     for i, t in enumerate(terms):
         for enc in encodings_for(t, i, quick):
             jobs.append((t, enc, cols, rows))
+    for grid, fam in ((wt_grid, wt_run), (shard_grid, shards_run)):
+        jobs += [(t, ENCS[i % 3], grid[0], grid[1]) for i, t in enumerate(fam)]
     traces = observe_all(jobs, 4 if quick else 8)
+    phase("observe_renderings")
     # ---- histories: the same composite terms rendered again while the canvases of earlier renderings are held ----
     comp = [t for t in witness + d1 + deep + sims if t["c"]]
     hjobs = [(t, ENCS[i % 3], cols, rows, 6 if quick else 12, chk.seed * 104729 + i) for i, t in enumerate(comp)]
+    hjobs += [(t, ENCS[(i + 1) % 3], wt_grid[0], wt_grid[1], 6 if quick else 12, chk.seed * 104729 + 7 * i) for i, t in enumerate(wt_run) if not quick or i % 3 == 0]
+    hjobs += [(t, ENCS[(i + 1) % 3], shard_grid[0], shard_grid[1], 6 if quick else 12, chk.seed * 104729 + 11 * i) for i, t in enumerate(shards_run)]
     htraces = observe_all(hjobs, 4 if quick else 8, observe_history)
+    phase("observe_histories")
     traces += [tr for tr in htraces if tr["build_exc"] or tr["ev"]]
     jobs += [j for tr, j in zip(htraces, hjobs) if tr["build_exc"] or tr["ev"]]
+    fam_of = {}
+    for name, fam in (("weights", wt_run), ("shards", shards_run)):
+        for t in fam:
+            fam_of[json.dumps(t, sort_keys=True)] = name
+    for tr in traces:
+        tr["family"] = fam_of.get(json.dumps(tr["term"], sort_keys=True), "")
     for tr, j in zip(traces, jobs):
         tr["cols"], tr["rows"] = j[2], j[3]
     built = [tr for tr in traces if not tr["build_exc"]]
@@ -383,6 +447,8 @@ def run(chk):
         if tr["build_exc"]:
             chk.divergence("constructor_rejected_wellformed_term", {"term": wtree.show(tr["term"]), "exc": tr["build_exc"]})
     res = validate_all(chk, built, 4 if quick else 8)
+    phase("validate(TLC)")
+    chk.note(f"phases: {phases}; events {sum(len(tr['ev']) for tr in built)}")
     rejected = {ti for ti, _l, why in res.rejects if "@overclaimed" in why}
     for i, tr in enumerate(built):
         if not tr.get("hist") and any(tr["term"] == w for w in witness) and i not in rejected:
@@ -407,7 +473,31 @@ def _coverage(chk, built, terms):
         bump("depth." + str(wtree.depth(tr["term"])))
         if tr.get("hist"):
             bump("frames.histories")
+        fam = tr.get("family", "")
+        if fam:
+            bump(f"family.{fam}.traces")
+        subs = list(sub(tr["term"]))
+        if any(x["k"] == "Frame" and x["o"][0] and x["o"][1] for x in subs):
+            bump("frame_with_header_and_footer")
+        pile_w0 = any(x["k"] == "Pile" and any(op[0] == "weight" and op[1] == 0 for op in x["o"][1]) for x in subs)
+        col_desc = any(x["k"] == "Columns" and _heavier_first(x["o"][3]) for x in subs)
+        col_opts = any(x["k"] == "Columns" and len(x["c"]) > 1 and (x["o"][0] != 1 or x["o"][1] > 1) for x in subs)
         for e in tr["ev"]:
+            if e["t"] in ("render", "frame") and not e.get("skip"):
+                for again in e["calc_again"]:
+                    bump("calc_again." + again[0])
+                if e["mode"] == "flow" and pile_w0 and tr["term"]["k"] == "Pile":
+                    bump("pile_zero_weight_item_as_flow_widget")
+                if e["mode"] != "fixed" and col_desc and e["c"] <= 5:
+                    bump("columns_heavier_before_lighter_at_narrow_width")
+                if e["mode"] != "fixed" and col_opts and e["c"] <= 5:
+                    bump("columns_min_width_or_dividechars_at_narrow_width")
+                if e["span"]:
+                    bump("canvas_with_view_spanning_shards")
+                if e["cutspan"]:
+                    bump("canvas_with_cut_spanning_view_and_canvas_below")
+                    if fam == "shards":
+                        bump("family.shards.cut_spanning_view_and_canvas_below")
             if e["t"] == "held":
                 bump("frames.held_canvas_measured_again")
             if e["t"] == "frame":
@@ -443,10 +533,16 @@ def _coverage(chk, built, terms):
                        "thorough: depth<=1 of the rep alphabet and depth<=2 of the tiny alphabet) plus TLC-simulated deeper terms over the full alphabets; "
                        "each rendered in every sizing mode it reports at the size grid x both focus flags; every composite term also in a history "
                        "with held canvases (root, each sub-widget at the sizes its parent gave it, root again, root invalidated, held canvases "
-                       "measured again); non-trivial = distinct "
+                       "measured again); two more TLC-enumerated families: 'weights' (every depth<=1 Pile / Columns over the space-sharing options: pack, given, "
+                       "weights 0..5 in both orders, min_width 1..3, dividechars 0..2; at every width 1..6) and 'shards' (stackers Frame / Pile / Overlay over "
+                       "clippers ListBox / Filler / BoxAdapter over rows of cells of different heights, the grammar Role of spec/WidgetTree.tla, at every height 1..5); "
+                       "rows() / pack() asked before the rendering, after it and after _invalidate(); non-trivial = distinct "
                        "(composite term, encoding, mode, size, focus) events")
     chk.cov["exhaustive"] = True
-    for need in ("frames.histories", "frames.sub_judged", "frames.sub_served_from_cache", "frames.inval_children_from_cache", "frames.again",
+    for need in ("family.weights.traces", "family.shards.traces", "family.shards.cut_spanning_view_and_canvas_below", "canvas_with_view_spanning_shards",
+                 "canvas_with_cut_spanning_view_and_canvas_below", "pile_zero_weight_item_as_flow_widget", "columns_heavier_before_lighter_at_narrow_width",
+                 "columns_min_width_or_dividechars_at_narrow_width", "calc_again.after", "calc_again.inval", "frame_with_header_and_footer",
+                 "frames.histories", "frames.sub_judged", "frames.sub_served_from_cache", "frames.inval_children_from_cache", "frames.again",
                  "frames.held_canvas_measured_again", "stratum.Text.multiline", "mode.box", "mode.flow", "mode.fixed", "one_column", "one_row", "cursor_present", "row_with_wide_char", "row_with_zero_width_char",
                  "enc.wide", "enc.narrow", "enc.utf8") + tuple("kind." + k for k in ("Text", "Edit", "Button", "CheckBox", "RadioButton", "SelectableIcon", "Divider", "SolidFill", "BigText",
                                                                                   "ProgressBar", "BarGraph", "Padding", "Filler", "LineBox", "AttrMap", "BoxAdapter", "WidgetDisable",
